@@ -24,11 +24,7 @@ impl SDJWTDisclosure  {
 
         #[cfg(feature = "mock_salts")]
         let salt = {
-            value_str = value_str
-                .replace(":[", ": [")
-                .replace(',', ", ")
-                .replace("\":", "\": ")
-                .replace("\":  ", "\": ");
+            value_str = python_style_separators(&value_str);
             generate_salt_mock()
         };
 
@@ -50,6 +46,34 @@ impl SDJWTDisclosure  {
             hash,
         }
     }
+}
+
+/// Re-spaces compact JSON text the way Python's `json.dumps` does (`, ` and `: `),
+/// touching only separators outside of string literals.
+#[cfg(feature = "mock_salts")]
+fn python_style_separators(s: &str) -> String {
+    let mut result = String::with_capacity(s.len());
+    let mut in_string = false;
+    let mut escaped = false;
+
+    for c in s.chars() {
+        result.push(c);
+        if in_string {
+            if escaped {
+                escaped = false;
+            } else if c == '\\' {
+                escaped = true;
+            } else if c == '"' {
+                in_string = false;
+            }
+        } else if c == '"' {
+            in_string = true;
+        } else if c == ',' || c == ':' {
+            result.push(' ');
+        }
+    }
+
+    result
 }
 
 fn escape_unicode_chars(s: &str) -> String {
